@@ -1145,6 +1145,9 @@ func (dc *driverContextInsertion) transition(driver stateTableDriver, entry tabl
 			return
 		}
 		start := markedInsertIndex
+		if int(start)+count > len(dc.insertionAction) { // invalid index: insert nothing
+			start, count = 0, 0
+		}
 		glyphs := dc.insertionAction[start:]
 
 		before := flags&miMarkedInsertBefore != 0
@@ -1179,6 +1182,9 @@ func (dc *driverContextInsertion) transition(driver stateTableDriver, entry tabl
 		}
 		buffer.maxOps -= count
 		start := currentInsertIndex
+		if int(start)+count > len(dc.insertionAction) { // invalid index: insert nothing
+			start, count = 0, 0
+		}
 		glyphs := dc.insertionAction[start:]
 
 		before := flags&miCurrentInsertBefore != 0
